@@ -86,7 +86,6 @@ func init() {
 // sem-batch (C05): programs of all fragments with small integer literals (32-bit arithmetic); the case kind batrun
 // makes the driver run the Batch script under the cmd.exe model; the implementation side is the Bash run.
 func init() {
-	runners["batrun"] = runRun
 	streams["sem-batch"] = func(r *rand.Rand, n int, g *genOut) {
 		feats := map[string]int{}
 		// targeted programs first: label allocation, multi-digit indices and lengths, helper corner cases
